@@ -506,7 +506,7 @@ Definition finish_root (s : bstate) (root_index : nat) : bstate :=
               end in
   fold_left (fun acc e =>
                match last with
-               | Some li => if instr_eqb li e then acc else push_instr acc e None
+               | Some li => if instr_eqb li e && instruction_eqb (fst e) I_EndExpression then acc else push_instr acc e None
                | None => push_instr acc e None
                end) ends s.
 
